@@ -22,7 +22,6 @@ var noopLib = map[string]bool{
 	"(*time.Timer).Stop": true, "(*time.Timer).Reset": true, "time.NewTimer": true, "time.Until": true,
 	"(time.Time).IsZero": true, "(time.Time).Add": true, "(time.Time).After": true, "(time.Time).Before": true,
 	"(time.Time).Sub": true, "(time.Time).UnixMilli": true, "(time.Time).UnixNano": true, "time.Now": true, "time.Since": true,
-	"github.com/pkg/errors.WithStack": true, "github.com/pkg/errors.New": true, "errors.New": true,
 	"github.com/pkg/errors.Wrap": true, "fmt.Sprintf": true, "fmt.Errorf": true,
 	"(*golang.org/x/time/rate.Limiter).WaitN": true, "golang.org/x/time/rate.NewLimiter": true,
 	"context.Background": true, "(time.Duration).Milliseconds": true,
